@@ -988,7 +988,7 @@ class OmniParser(PVLParser):
         pieces = list()
         last = 0
         length = 0
-        for match in re.finditer(r"-[\n\r\f]\s*", s):
+        for match in self._dash_continuations(s):
             pieces.append(s[last:match.start()])
             length += match.start() - last
             self._removed_newlines.append((length, match.group().count("\n")))
@@ -998,6 +998,38 @@ class OmniParser(PVLParser):
         self.doc = nodash
 
         return super().parse(nodash)
+
+    def _dash_continuations(self, s: str):
+        """Yields a match object for each dash continuation in *s*.
+
+        A comment that runs to the end of its line (like "# -----")
+        ends there, whatever its last character is: a dash at its
+        end does not continue the comment onto the next line.
+        """
+        starts = tuple(
+            c[0] for c in self.grammar.comments if c[1] == "\n"
+        )
+        spans = None
+        for match in re.finditer(r"-[\n\r\f]\s*", s):
+            line = s[s.rfind("\n", 0, match.start()) + 1:match.start()]
+            if any(c in line for c in starts):
+                if spans is None:
+                    spans = self._line_comment_spans(s, starts)
+                if any(a <= match.start() < b for (a, b) in spans):
+                    continue
+            yield match
+
+    def _line_comment_spans(self, s: str, starts: tuple) -> list:
+        # Only the lexer knows whether a comment character really
+        # starts a comment (and is not in a quoted string, say).
+        spans = list()
+        try:
+            for t in self.lexer(s, g=self.grammar, d=self.decoder):
+                if t.is_comment() and t.startswith(starts):
+                    spans.append((t.pos, t.pos + len(t)))
+        except LexerError:
+            pass
+        return spans
 
     def parse_module_post_hook(
         self, module: MutableMappingSequence, tokens: abc.Generator
